@@ -282,7 +282,13 @@ def structure_flags(text):
         if not m:
             raise ExtractFail("wasi.c", f"{fname}: fd < 0 test not found")
         sync_inval[fname] = m.group(1)
-    return clears, get_rejects, guard("wasiFDReaddir"), guard("wasiFdFdstatGet"), guard("wasiFDFilestatGet"), whence_first, sync_inval
+    # resolvePath refuses guest paths with an embedded NUL (before looking at path[0])
+    rp = function_body(text, "resolvePath")
+    nul = re.search(r"MUST\s*\(\s*memchr\s*\(\s*path\s*,\s*'\\0'\s*,\s*pathLength\s*\)\s*==\s*NULL\s*\)", rp)
+    rejects_nul = nul is not None and 0 <= rp.find("pathLength > 0") < nul.start() < rp.find("path[0]")
+    if "memchr" in rp and not rejects_nul:
+        raise ExtractFail("wasi.c", "resolvePath: memchr test of an unexpected shape/position")
+    return clears, get_rejects, guard("wasiFDReaddir"), guard("wasiFdFdstatGet"), guard("wasiFDFilestatGet"), whence_first, sync_inval, rejects_nul
 
 
 def lean_list(items):
@@ -390,7 +396,7 @@ def generate(repo):
                "WASI_FDFLAGS_DSYNC", "WASI_FDFLAGS_NONBLOCK", "WASI_FDFLAGS_RSYNC", "WASI_FDFLAGS_SYNC"):
         w(f"def {nm} : Nat := {eval_const(nm, macros, 'wasi.h')}")
     w("")
-    clears, get_rejects, g_rd, g_fs, g_fl, whence_first, sync_inval = structure_flags(text)
+    clears, get_rejects, g_rd, g_fs, g_fl, whence_first, sync_inval, rejects_nul = structure_flags(text)
     b = lambda x: "true" if x else "false"
     og = lambda x: "none" if x is None else f"some {eval_const(x, macros, 'wasi.h')}"
     w("/-- `wasiFileDescriptorClose` assigns `path = NULL` in the table after `free` -/")
@@ -401,6 +407,8 @@ def generate(repo):
     w(f"def readdirNullPath : Option Nat := {og(g_rd)}")
     w(f"def fdstatNullPath : Option Nat := {og(g_fs)}")
     w(f"def filestatNullPath : Option Nat := {og(g_fl)}")
+    w("/-- `resolvePath` fails for a guest path that contains a NUL byte -/")
+    w(f"def resolveRejectsNul : Bool := {b(rejects_nul)}")
     w("/-- fd_seek converts (and rejects) whence before looking the descriptor up -/")
     w(f"def seekChecksWhenceFirst : Bool := {b(whence_first)}")
     w(f"/-- fd_datasync / fd_sync on a descriptor with fd < 0 return this -/")
